@@ -36,7 +36,8 @@ def mk(seq, share=False):
         if share and (n, v) in first and i % 2:
             out.append(first[(n, v)])
             continue
-        d = ht.HTMLDependency(n, v, script={"src": "f%d.js" % i})
+        # (some dependencies are bare markers: no script, stylesheet, meta or head - they resolve like any other)
+        d = ht.HTMLDependency(n, v, script={"src": "f%d.js" % i}) if i % 3 else (ht.HTMLDependency(n, v, all_files=bool(i % 2)) if i % 2 else ht.HTMLDependency(n, v))
         first.setdefault((n, v), d)
         out.append(d)
     return out
@@ -68,6 +69,11 @@ def place(shape, deps):
         return ht.TagList([d[:half], (ht.TagList(*d[half:]),)], "x")
     if shape == "tag_root":
         return ht.tags.section(ht.div(*d[: len(d) // 3]), *d[len(d) // 3:])
+    if shape == "repeated_subtree":
+        # the very same Tag object (with dependencies inside) placed at several positions
+        half = len(d) // 2
+        sub = ht.div(*d[:half], ht.span("s"))
+        return ht.TagList(sub, ht.p(*d[half:]), sub, [sub])
     if shape == "random_tree":
         # a random tree consuming the dependencies in document order
         import random as _r
@@ -117,6 +123,21 @@ def same_ids(a, b):
 def check_seq(ctx, seq, shapes=SHAPES, share=False):
     wit = {"sequence": seq, "same_object_reused": share}
     deps = mk(seq, share)
+    if deps and "repeated_subtree" not in shapes and ctx.rng.random() < 0.3:
+        # document order when one subtree object occurs three times: its dependencies occur three times
+        half = len(deps) // 2
+        root = place("repeated_subtree", deps)
+        order = deps[:half] + deps[half:] + deps[:half] + deps[:half]
+        raw = root.get_dependencies(dedup=False)
+        ctx.count("oracle.repeated_subtree")
+        if not same_ids(raw, order):
+            ctx.violation("dedup-false-not-document-order", "get_dependencies(dedup=False) with a tag object placed three times dropped or reordered",
+                          dict(wit, shape="repeated_subtree", got=[(x.name, str(x.version)) for x in raw]))
+            return False
+        want_r = refdeps.resolve(order, name=lambda x: x.name, version=lambda x: str(x.version))
+        if not same_ids(root.get_dependencies(), want_r):
+            ctx.violation("resolution-wrong-version-or-tie", "resolution over a repeated subtree differs from the reference", dict(wit, shape="repeated_subtree"))
+            return False
     want = refdeps.resolve(deps, name=lambda d: d.name, version=lambda d: str(d.version))
     # the reference must use the user's version string, not the library's parse: map back
     want = refdeps.resolve(list(zip(seq, deps)), name=lambda it: it[0][0], version=lambda it: it[0][1])
